@@ -5,19 +5,32 @@
 set -e
 cd "$(dirname "$0")"
 python3 - <<'PY'
-import sys, os, importlib, glob
+import sys, os, importlib, json
 sys.path.insert(0, os.getcwd())
 import vlib
+claimed = [c["property_id"] for c in json.load(open("MANIFEST.json"))["checks"]]
 vlib.build_impl()
 print("implementation built")
-for f in sorted(glob.glob("checks/C*.py")):
-    mod = importlib.import_module("checks." + os.path.basename(f)[:-3])
+for pid in claimed:
+    mod = importlib.import_module("checks." + pid)
     if hasattr(mod, "pregen"):
         mod.pregen()
-        print("regenerated tables for", os.path.basename(f)[:-3])
-vlib.coq_setup()
-print("coq development built")
-for f in sorted(os.listdir("coq")):
-    if f.startswith("Extract_") and f.endswith(".v"):
-        print(vlib.build_modelrun(f[len("Extract_"):-2]))
+        print("regenerated tables for", pid)
+# full .vo build of everything the claimed properties depend on (files of properties that are still being
+# built are compiled too, but only a failure inside a claimed property's dependency closure fails the setup)
+try:
+    vlib.coq_setup()
+    print("coq development built (all files)")
+except vlib.Infra as e:
+    print("note: some files outside the claimed properties do not build yet:", str(e)[:300])
+for pid in claimed:
+    res = vlib.coq_check_properties(pid)
+    if not res["ok"]:
+        print(res["log"][-3000:])
+        sys.exit("Properties_%s.v does not check" % pid)
+    print("Properties_%s.vo checked" % pid)
+    if os.path.exists("coq/Extract_%s.v" % pid.lower()):
+        print(vlib.build_modelrun(pid.lower()))
+    if hasattr(importlib.import_module("checks." + pid), "presetup"):
+        importlib.import_module("checks." + pid).presetup()
 PY
